@@ -55,17 +55,31 @@ class TaskGroup:
         app_send_channel, app_receive_channel = trio.open_memory_channel[ASGIReceiveEvent](
             config.max_app_queue_size
         )
+
+        async def _send(message: Optional[ASGISendEvent]) -> None:
+            if message is None:
+                # The app has finished, nothing will read the channel
+                # again: do not let anything wait for room in it.
+                app_receive_channel.close()
+            await send(message)
+
+        async def _put(message: ASGIReceiveEvent) -> None:
+            try:
+                await app_send_channel.send(message)
+            except trio.BrokenResourceError:
+                pass  # The app has finished
+
         self._nursery.start_soon(
             _handle,
             app,
             config,
             scope,
             app_receive_channel.receive,
-            send,
+            _send,
             trio.to_thread.run_sync,
             trio.from_thread.run,
         )
-        return app_send_channel.send
+        return _put
 
     def spawn(self, func: Callable, *args: Any) -> None:
         self._nursery.start_soon(func, *args)
